@@ -9,11 +9,11 @@ CHECKS = {
         runs=[dict(cfg='asan')],
         rule='explicit-state BFS to a fixpoint over the product (real reader, reference cursor); a case = one (source, backend) pair; '
              'a state = reader private state + model position; every operation of the boundary-valued alphabet is applied in every reachable state',
-        bounds={'quick': '10 sources (len 0..10) x 5 backends (memory, memory slice, file slice, slice of slice, slice-at-position); ~380 op instances per state; fixpoint',
+        bounds={'quick': '10 sources (len 0..10) x 5 backends (memory, memory slice, file slice, slice of slice, slice-at-position); ~380 op instances per state; fixpoint; plus 5 sources of 140000 bytes headed by negative / large size prefixes, every operation once at positions 0,1,2 on all 5 backends',
                 'thorough': 'adds every source of length <= 3 over the bytes {00,01,02,7F,80,FF} (259 sources) and two sources of 16 and 20 bytes, each on all 5 backends, fixpoint'},
         must_hit={'any': ['read/in-bounds', 'read/out-of-bounds', 'read/wraps-64-bit', 'readpartial/short', 'readpartial/full', 'peek/in-bounds',
                           'peek/out-of-bounds', 'seek/in-bounds', 'seek/out-of-bounds', 'typed/prefixed-ok', 'typed/prefixed-reject',
-                          'typed/cstr-ok', 'typed/cstr-reject', 'typed/sized-ok', 'typed/sized-wide-ok', 'typed/sized-reject', 'slice/contained', 'slice/not-contained', 'slice/wraps-64-bit']},
+                          'typed/cstr-ok', 'typed/cstr-reject', 'typed/sized-ok', 'typed/sized-wide-ok', 'typed/sized-reject', 'typed/prefixed-on-long-source', 'slice/contained', 'slice/not-contained', 'slice/wraps-64-bit']},
         assumptions=['x86-64 little endian; harness reads private cursor fields via -fno-access-control for state keys only',
                      'argument values outside the boundary sets are not explored'],
     ),
@@ -64,13 +64,13 @@ CHECKS['C04'] = dict(
     src='checks/c04_lzh.cpp',
     runs=[dict(cfg='asan', env={'VERIF_PART': 'main'}), dict(cfg='plain', env={'VERIF_PART': 'len3'}, tiers=('thorough',))],
     technique='small-scope exhaustive input/token enumeration + explicit-state BFS (full-state hash) over all drain schedules of the real decoder, against an independent LZHUF reference codec',
-    level_text='Every byte string of length 0..2 (thorough: also all 16.7 M of length 3) and every token sequence of depth <= 3 (thorough 4) over 4 literals and 28 matches (lengths 3,4,59,60 x distances 1,2,63,64,65,4095,4096), plus the full grid of every match length 3..60 x every distance 1..4096, is decoded by the real HuffLZ and compared byte for byte with ref_lzh (the token payload must be a prefix and fewer than eight padding codes may follow). For six fixed streams the graph of ALL drain schedules over GetData(k) / GetInternalBuffer is explored to a fixpoint with full decoder-state hashing: every edge must deliver exactly the next reference bytes and report 0 only at the end; the same search runs on all 256 one-byte inputs and 768 two-byte inputs with an 11-operation alphabet. Streams beyond the 65221-code capacity must end in an error with only a reference prefix delivered, for three stream kinds x three drain modes, and all 121 continuations of depth <= 4 across the capacity boundary are enumerated. LZH members of a reference-encoded volume must extract to the reference bytes.',
+    level_text='Every byte string of length 0..2 (thorough: also all 16.7 M of length 3) and every token sequence of depth <= 3 (thorough 4) over 4 literals and 28 matches (lengths 3,4,59,60 x distances 1,2,63,64,65,4095,4096), plus the full grid of every match length 3..60 x every distance 1..4096, is decoded by the real HuffLZ and compared byte for byte with ref_lzh (the token payload must be a prefix and fewer than eight padding codes may follow). Every leading part (byte granularity) of the six drain streams and of every token-sequence encoding of up to three tokens is an input as well, so final codes cut anywhere inside their Huffman path or offset field are compared with the reference (missing bits read as zero). For six fixed streams the graph of ALL drain schedules over GetData(k) / GetInternalBuffer is explored to a fixpoint with full decoder-state hashing: every edge must deliver exactly the next reference bytes and report 0 only at the end; the same search runs on all 256 one-byte inputs and 768 two-byte inputs with an 11-operation alphabet. Streams beyond the 65221-code capacity must end in an error with only a reference prefix delivered, for three stream kinds x three drain modes, and all 121 continuations of depth <= 4 across the capacity boundary are enumerated. LZH members of a reference-encoded volume must extract to the reference bytes.',
     level_note='Trusts ref_lzh/ref_huff (about 300 lines, cross-checked by encode->decode->expand self-consistency on every token sequence), g++/ASan/UBSan. Inputs outside the enumerated sets (long random strings) are represented only by the six drain streams. The empty input is checked for safety, termination and drain independence only.',
     rule='case = one enumeration chunk or one drain-schedule BFS; states = inputs/token sequences/decoder states; transitions = decodes or drain calls compared with the reference',
-    bounds={'quick': 'inputs len 0..2; token depth 3; match grid 58x4096; drain BFS: 6 streams with the 4-op alphabet {GetData(1),GetData(62),GetData(4096),GetInternalBuffer} (stream 0: 15 ops); capacity 3x3 + 121 tails',
+    bounds={'quick': 'inputs len 0..2; token depth 3; match grid 58x4096; leading parts of 6 streams (about 9 k inputs) and of all token sequences; drain BFS: 6 streams with the 4-op alphabet {GetData(1),GetData(62),GetData(4096),GetInternalBuffer} (stream 0: 15 ops); capacity 3x3 + 121 tails',
             'thorough': 'adds all 3-byte inputs (plain -O2 build), token depth 4, 15-op drain alphabet {0,1,2,61,62,63,100,4033,4034,4035,4095,4096,4097,5000,IB} on all six streams'},
     must_hit={'any': ['short/with-match', 'short/literals-only', 'tokens/with-padding-codes', 'tokens/exact-end', 'grid/lengths', 'drain/data-returns', 'drain/zero-returns',
-                      'drain/internal-buffer-calls', 'drain/short-input-graphs', 'capacity/over-long-streams', 'capacity/tail-over', 'capacity/tail-within', 'volume/members-extracted', 'volume/over-capacity-member']},
+                      'drain/internal-buffer-calls', 'drain/short-input-graphs', 'leading/parts', 'tokens/leading-parts', 'capacity/over-long-streams', 'capacity/tail-over', 'capacity/tail-within', 'volume/members-extracted', 'volume/over-capacity-member']},
     assumptions=['capacity: 65221 codes (16-bit counters, 314 symbols)'],
 )
 
@@ -129,10 +129,10 @@ CHECKS['C06'] = dict(
     src='checks/c06_map_roundtrip.cpp',
     runs=[dict(cfg='asan')],
     technique='small-scope exhaustive enumeration of well-formed maps (reference serializer) + explicit-state BFS over public edit histories in lock-step with a reference map',
-    level_text='Well-formed maps are generated by the independent ref_map serializer over 12 dimensions (log-width 0,1,2,5,6,10; height 0..3; tile bits; saved-game word 0,1,2,0x100,2^32-1; version tags incl. 2^31-1 and 2^32-1; clip rectangles incl. INT_MIN/INT_MAX; 7 tileset-source patterns with empty and non-empty names; 0..2 mappings and terrain types; 7 tile-group patterns incl. zero-area groups; undocumented word; trailing bytes): quick = base + all single and pair deviations (685 maps), thorough = full product of the six structural dimensions x data dimensions with <=2 deviations (1.46 M maps). For each: ReadMap accepts, every field equals the reference, Write equals the predicted bytes (consumed bytes with the flag normalised to 0/1, undocumented word regenerated, trailing dropped), re-read is equal in every field (public and private), second Write is byte-identical; the file-name overloads of ReadMap/Write give the same map and the same bytes. Edit histories: from four seeds (32x2, 64x2, with/without empty tileset sources) every history up to depth 3 (thorough 4) over SetCellType (4 values x 5-6 positions incl. the 32-column block boundary), SetLavaPossible, SetVersionTag (incl. a tag below the minimum) and TrimTilesetSources: after every edit the serialised map must equal the reference map with the same edit applied, and re-read must succeed iff the tag is >= 0x1010.',
+    level_text='Well-formed maps are generated by the independent ref_map serializer over 12 dimensions (log-width 0,1,2,5,6,10; height 0..3; tile bits; saved-game word 0,1,2,0x100,2^32-1; version tags incl. 2^31-1 and 2^32-1; clip rectangles incl. INT_MIN/INT_MAX; 9 tileset-source patterns with empty and non-empty names (empty slots in front, in between and at the end); 0..2 mappings and terrain types; 7 tile-group patterns incl. zero-area groups; undocumented word; trailing bytes): quick = base + all single and pair deviations (751 maps), thorough = full product of the six structural dimensions x data dimensions with <=2 deviations (1.87 M maps). For each: ReadMap accepts, every field equals the reference, Write equals the predicted bytes (consumed bytes with the flag normalised to 0/1, undocumented word regenerated, trailing dropped), re-read is equal in every field (public and private), second Write is byte-identical; the file-name overloads of ReadMap/Write give the same map and the same bytes. Edit histories: from six seeds (32x2, 64x2, with/without empty tileset sources, an empty source in front of three used ones, empty sources in between) every history up to depth 3 (thorough 4) over SetCellType (4 values x 5-6 positions incl. the 32-column block boundary), SetLavaPossible, SetVersionTag (incl. a tag below the minimum) and TrimTilesetSources: after every edit the serialised map must equal the reference map with the same edit applied, and re-read must succeed iff the tag is >= 0x1010.',
     level_note='Trusts ref_map (120 lines) and g++/ASan/UBSan. Un-normalised variants (flag 2, foreign undocumented word) may be rejected by the reader without a violation (counted). Tile groups whose width*height overflows 32 bits and maps beyond 1024x3 are not enumerated.',
     rule='state = one well-formed map / one (map, reference) product state; transitions = read/write calls and edits compared',
-    bounds={'quick': '685 maps (deviation<=2 over 12 dimensions); edit depth 3 on 4 seeds', 'thorough': '1.46 M maps; edit depth 4'},
+    bounds={'quick': '751 maps (deviation<=2 over 12 dimensions); edit depth 3 on 6 seeds', 'thorough': '1.87 M maps; edit depth 4'},
     must_hit={'any': ['accept/writer-form', 'accept/with-trailing-bytes', 'shape/width-1', 'shape/height-0', 'shape/zero-area-group', 'shape/empty-source-name', 'edit/edges', 'edit/low-version-tag-written', 'file-overloads/round-trips']},
     assumptions=['TrimTilesetSources removes sources with an empty name or zero tiles (as the test suite documents)'],
 )
@@ -141,11 +141,11 @@ CHECKS['C07'] = dict(
     src='checks/c07_map_faults.cpp',
     runs=[dict(cfg='asan')],
     technique='deviation-bounded fault enumeration over reference-encoded maps and saved games (every prefix, field x boundary value, byte substitutions, field pairs, a full log-width x height grid) executed on the real readers under ASan+UBSan',
-    level_text='Seeds: five reference maps (1x0 with empty tables, 32x2, 64x3 with all tables populated, trailing bytes, five tileset sources) and three reference saved games (with/without units and free list). Every proper prefix of every seed (thorough; quick: all maps and one 370 KB saved game) is presented through a MemoryReader whose tail is ASan-poisoned: prefixes cutting the consumed portion must be rejected, prefixes cutting only trailing bytes accepted. Every header/count/length field x ~45 boundary values, byte substitutions in the parsed regions, all field pairs x 10x10 values (thorough), and the full grid of 48 log-width values (0..40, 63..65, 2^31, 2^32-1, ...) x 40 heights (all 2^k, 0, 3, 2^32-1, ...) on a map and a saved game: the reader must fail with an ordinary error or return a map whose tile array has exactly width x height entries (64-bit product) with width a power of two, without sanitizer report (over-wide shifts are UBSan reports) and within the watchdog. For each of the 685 maps of the C06 quick set the saved game embedding it must yield the same dimensions, tiles, clip rectangle, tileset sources, mappings and terrain types as the map file.',
+    level_text='Seeds: five reference maps (1x0 with empty tables, 32x2, 64x3 with all tables populated, trailing bytes, five tileset sources) and three reference saved games (with/without units and free list). Every proper prefix of every seed (thorough; quick: all maps and one 370 KB saved game) is presented through a MemoryReader whose tail is ASan-poisoned: prefixes cutting the consumed portion must be rejected, prefixes cutting only trailing bytes accepted. Every header/count/length field x ~45 boundary values, byte substitutions in the parsed regions, all field pairs x 10x10 values (thorough), and the full grid of 48 log-width values (0..40, 63..65, 2^31, 2^32-1, ...) x 40 heights (all 2^k, 0, 3, 2^32-1, ...) on a map and a saved game: the reader must fail with an ordinary error or return a map whose tile array has exactly width x height entries (64-bit product) with width a power of two, without sanitizer report (over-wide shifts are UBSan reports) and within the watchdog. Wrap-consistent files: for every (log-width, height) of a 47 x 102 grid whose product does not fit 32 bits, files holding exactly as many tile words as each wrapped product says (64-bit shift truncated, 32-bit shift with masked count, the height itself, zero) are built for the map and the saved-game reader and must be refused; saved games whose unit table really has records of the size the sizeOfUnit field names (15 sizes incl. 121..152, x unit count 0/1/3 x free list, followed by 96 KiB of data) must end in an ordinary error or a map. For each of the 751 maps of the C06 quick set the saved game embedding it must yield the same dimensions, tiles, clip rectangle, tileset sources, mappings and terrain types as the map file.',
     level_note='Trusts ref_map, g++/ASan/UBSan. Allocation requests above 64 MiB are answered with bad_alloc by the harness allocator, so corrupted counts end in an ordinary error. Coverage-guided mutation is not used.',
     rule='case = a block of prefixes / mutants / grid points; states = inputs parsed; transitions = reader calls judged',
-    bounds={'quick': 'prefix sweep on 5 maps + 1 saved game; level-1 faults on 8 seeds; 2 grids of 48x40; 685 equivalence pairs', 'thorough': 'prefix sweep on all 8 seeds; level 2 field pairs'},
-    must_hit={'any': ['prefix/cuts-consumed-portion', 'prefix/only-trailing-bytes-cut', 'fault/accepted', 'fault/refused', 'grid/over-wide-shift', 'grid/product-exceeds-32-bits', 'grid/representable', 'equivalence/pairs']},
+    bounds={'quick': 'prefix sweep on 5 maps + 1 saved game; level-1 faults on 8 seeds; 2 grids of 48x40; 2 wrap-consistent grids; 180 unit-record-size files; 751 equivalence pairs', 'thorough': 'prefix sweep on all 8 seeds; level 2 field pairs'},
+    must_hit={'any': ['prefix/cuts-consumed-portion', 'prefix/only-trailing-bytes-cut', 'fault/accepted', 'fault/refused', 'grid/over-wide-shift', 'grid/product-exceeds-32-bits', 'grid/representable', 'grid/wrap-consistent-files', 'units/record-size-files', 'units/refused', 'equivalence/pairs']},
     assumptions=['the extent consumed by the reader is the reference encoder\'s length without trailing bytes'],
 )
 
@@ -165,11 +165,11 @@ CHECKS['C08'] = dict(
     src='checks/c08_bitmap.cpp',
     runs=[dict(cfg='asan')],
     technique='small-scope exhaustive enumeration of accepted bitmap files (independent encoder) and factory parameter triples, executed on the real reader/writer',
-    level_text='For depth 1, 4, 8 x every width 0..66 (every residue of row bits mod 32 for every depth; thorough: every width 0..130 plus 255..257, 1023..1025, 4095, 4097) x every height -3..3 (thorough also +-4, 5, 8, 9, 31, 32, 33) x four palette forms (full, 1 entry, 2^d-1, 2^d used colours) x important-colour count 0/1, with non-zero bytes in the file row padding: ReadIndexed accepts, Validate passes, width >= 0, pixel size = pitch x |height| with the pitch computed independently, palette <= 2^d entries; the written file parses under the strict ref_bmp decoder with zero row padding and consistent headers; write -> read preserves width, signed height, depth, every palette entry that was read and every pixel byte inside the meaningful row width; InvertScanLines reverses the rows and negates the height and twice restores the original. The factory functions (three overloads) round-trip to an equal object on the same (depth, width, height) grid; unsupported depths are refused. Headers with negative width whose size cross-check holds modulo 2^64 must not be accepted.',
+    level_text='For depth 1, 4, 8 x every width 0..66 (every residue of row bits mod 32 for every depth; thorough: every width 0..130 plus 255..257, 1023..1025, 4095, 4097) x every height -3..3 (thorough also +-4, 5, 8, 9, 31, 32, 33) x four palette forms (full, 1 entry, 2^d-1, 2^d used colours) x important-colour count 0/1, with non-zero bytes in the file row padding: ReadIndexed accepts, Validate passes, width >= 0, pixel size = pitch x |height| with the pitch computed independently, palette <= 2^d entries; the written file parses under the strict ref_bmp decoder with zero row padding and consistent headers; write -> read preserves width, signed height, depth, every palette entry that was read and every pixel byte inside the meaningful row width; InvertScanLines reverses the rows and negates the height and twice restores the original. The factory functions (three overloads) round-trip to an equal object on the same (depth, width, height) grid; unsupported depths are refused. Headers with negative width whose size cross-check holds modulo 2^64 must not be accepted, and headers whose row bit count width x depth is >= 2^32 carrying exactly the pixel bytes a 32-bit pitch computation asks for must not come back with the wrong row length.',
     level_note='Trusts ref_bmp (100 lines), g++/ASan/UBSan. Weaker reading: after a round trip a partial palette may have grown to full length as long as the entries that were read are unchanged.',
     rule='state = one accepted file or factory triple; transitions = read/write/flip calls judged',
     bounds={'quick': '3 depths x 67 widths x 7 heights x 4 palette forms x 2; factory 3 x 67 x 7 x 3 overloads', 'thorough': '139 widths x 21 heights'},
-    must_hit={'any': ['accepted/full-palette', 'accepted/partial-palette', 'accepted/top-down', 'accepted/empty-image', 'file-overloads/round-trips', 'factory/round-trips', 'factory/unsupported-depths', 'negative-width/wrap-consistent-headers']},
+    must_hit={'any': ['accepted/full-palette', 'accepted/partial-palette', 'accepted/top-down', 'accepted/empty-image', 'file-overloads/round-trips', 'factory/round-trips', 'factory/unsupported-depths', 'negative-width/wrap-consistent-headers', 'wide-rows/wrap-consistent-headers']},
     assumptions=[],
 )
 
@@ -177,10 +177,10 @@ CHECKS['C09'] = dict(
     src='checks/c09_tileset.cpp',
     runs=[dict(cfg='asan')],
     technique='small-scope exhaustive product of tileset pictures x orientation x storage format and all single-byte signature variants, executed on the real loader/saver against an independent format encoder',
-    level_text='Every picture over heights {0,32,64,96} (thorough +128, 2048) x three palettes (all entries distinct with red != blue, all zero, wrapping) x two pixel fills x both scan-line orientations is saved with WriteCustomTileset and with WriteIndexed: the custom bytes must equal the independent ref_tileset encoding (tags, lengths, tag counts, width 32, depth 8, flags 8, PPAL 1048 / head 4 / data 1024, blue-green-red palette order, rows top-down) and be identical for both orientations; ReadTileset of the custom bytes returns the picture top-down with identical colours and ReadTileset of the standard bitmap shows the same visual rows and colours. PeekIsCustomTileset is probed with each of the 4 signature bytes x all 256 values, BM-led streams, streams of length 0..3, tags at positions 0, 1 and 5, memory- and file-backed: the answer must be tag == PBMP and Position() must be unchanged, also when the probe throws on a short stream. 14 violating pictures (depth 1/4, widths 0/31/33/64/16, heights +-1, +-31, +-33, 48) are refused by WriteCustomTileset, ValidateTileset and by ReadTileset of their standard form; 11 custom files with violating header fields are refused.',
+    level_text='Every picture over heights {0,32,64,96,2016,2048,2080} (thorough +128, 4096, 65536, 131104) x three palettes (all entries distinct with red != blue, all zero, wrapping) x two pixel fills x both scan-line orientations is saved with WriteCustomTileset and with WriteIndexed: the custom bytes must equal the independent ref_tileset encoding (tags, lengths, tag counts, width 32, depth 8, flags 8, PPAL 1048 / head 4 / data 1024, blue-green-red palette order, rows top-down) and be identical for both orientations; ReadTileset of the custom bytes returns the picture top-down with identical colours and ReadTileset of the standard bitmap shows the same visual rows and colours. PeekIsCustomTileset is probed with each of the 4 signature bytes x all 256 values, BM-led streams, streams of length 0..3, tags at positions 0, 1 and 5, memory- and file-backed: the answer must be tag == PBMP and Position() must be unchanged, also when the probe throws on a short stream. 14 violating pictures (depth 1/4, widths 0/31/33/64/16, heights +-1, +-31, +-33, 48) are refused by WriteCustomTileset, ValidateTileset and by ReadTileset of their standard form; 11 custom files with violating header fields are refused.',
     level_note='The outer PBMP length (1068 + 32h) is pinned to the tree, not independently known: for that field the check is a drift detector only. Palettes have 256 entries (partial palettes are not judged).',
     rule='state = one picture/orientation or one probe; transitions = save/load/peek calls judged',
-    bounds={'quick': '4 heights x 3 palettes x 2 fills x 2 orientations x 2 storages; 1024+ signature probes; 53 refusal probes', 'thorough': '6 heights'},
+    bounds={'quick': '7 heights x 3 palettes x 2 fills x 2 orientations x 2 storages; 1024+ signature probes; 53 refusal probes', 'thorough': '11 heights up to 131104 rows'},
     must_hit={'any': ['pictures/top-down', 'pictures/bottom-up', 'detector/custom', 'detector/not-custom', 'detector/short-streams', 'refusals/attempts']},
     assumptions=[],
 )
@@ -213,11 +213,11 @@ CHECKS['C19'] = dict(
     src='checks/c19_laws.cpp',
     runs=[dict(cfg='asan', env={'VERIF_PART': 'small'}), dict(cfg='plain', env={'VERIF_PART': 'bits'}), dict(cfg='plain', env={'VERIF_PART': 'big'})],
     technique='exhaustive enumeration of all strings up to a length bound: relation bit-matrices over all pairs, algebraic laws over all triples by row operations; exhaustive sweep of all 2^32 integers',
-    level_text='For all 4681 strings of length <= 4 (thorough: all 37449 of length <= 5; length <= 3 additionally under ASan+UBSan) over {a,A,b,B,_,.,/,0} the relations IsEqualCaseInsensitive (comes-before), IsEqual and PathsAreEqual are evaluated on ALL pairs and the laws are decided on ALL triples through bit-matrix row operations: the comparator is irreflexive, asymmetric, transitive, its incomparability is transitive and coincides with IsEqual; PathsAreEqual is reflexive, symmetric, transitive, contains IsEqual, and ignores a leading ./ for every relative path of plain components. On the same set: GetFilename(Append(d,f)) == f for every relative d and plain f; Append(GetDirectory(p),GetFilename(p)) equals p for every p where the functions are defined; ChangeFileExtension(f,e) matches e in 6 spellings for 6 extensions. Bytes >= 0x80: all single-byte strings (thorough: plus 19 boundary bytes to length 3) under the same ordering laws. IsPowerOf2 is compared with popcount == 1 for all 2^32 values, Log2OfPowerOf2 for all 32 powers.',
+    level_text='For all 4681 strings of length <= 4 (thorough: all 37449 of length <= 5; length <= 3 additionally under ASan+UBSan) over {a,A,b,B,_,.,/,0} the relations IsEqualCaseInsensitive (comes-before), IsEqual and PathsAreEqual are evaluated on ALL pairs and the laws are decided on ALL triples through bit-matrix row operations: the comparator is irreflexive, asymmetric, transitive, its incomparability is transitive and coincides with IsEqual; PathsAreEqual is reflexive, symmetric, transitive, contains IsEqual, and ignores a leading ./ for every relative path of plain components. On the same set: GetFilename(Append(d,f)) == f for every relative d and plain f; Append(GetDirectory(p),GetFilename(p)) equals p for every p where the functions are defined; ChangeFileExtension(f,e) matches e in 6 spellings for 6 extensions. Bytes >= 0x80: all single-byte strings (thorough: plus 19 boundary bytes to length 3) under the same ordering laws. Every list of up to 4 (thorough 5) names over a 10-name pool (all orders, repetitions) is sorted with the file-name comparator of the library and offered to the duplicate check of the archive writers: refusal iff two names are equal ignoring case wherever the pair ends up, and every order of a duplicate-free list sorts to the same sequence. IsPowerOf2 is compared with popcount == 1 for all 2^32 values, Log2OfPowerOf2 for all 32 powers.',
     level_note='Pure functions: the exhaustive pair/triple enumeration is the whole claim; strings longer than 4 and random long strings (sampling) are not covered. The 2^32 sweep and the length-4 matrices run in the plain -O2 build, length <= 3 under ASan+UBSan.',
     rule='states = strings / integers enumerated; transitions = relation evaluations and row comparisons',
     bounds={'quick': '4681 strings (2.2e7 pairs, 1e11 triples), 255 single bytes, 7240 boundary-byte strings; all 2^32 integers', 'thorough': '37449 strings (1.4e9 pairs, 5e13 triples) for the ordering and path-equality laws; path laws on 4681 strings'},
-    must_hit={'any': ['order/pairs', 'order/triples', 'path-equality/pairs', 'path-equality/triples', 'path-equality/dot-slash-prefix', 'path/join-filename', 'path/split-rejoin-relative', 'path/split-rejoin-rooted', 'path/extension-names', 'bits/values', 'bits/logarithms']},
+    must_hit={'any': ['order/pairs', 'order/triples', 'path-equality/pairs', 'path-equality/triples', 'path-equality/dot-slash-prefix', 'path/join-filename', 'path/split-rejoin-relative', 'path/split-rejoin-rooted', 'path/extension-names', 'bits/values', 'bits/logarithms', 'duplicates/lists-with-a-duplicate', 'duplicates/duplicate-free-lists']},
     assumptions=['"plain component" = non-empty, not . or .., no slash'],
 )
 
@@ -237,11 +237,11 @@ CHECKS['C20'] = dict(
     src='checks/c20_limits.cpp',
     runs=[dict(cfg='asan')],
     technique='exhaustive enumeration of every on-disk field limit, at and just beyond, on the real writers (sparse files for the 2^31 / 2^32 cases)',
-    level_text='VOL: member sizes 2^31, 2^32-1, 2^32, 2^32+5 and a 2^31+1 member between small ones (sparse files), and member sets whose accumulated block offset crosses 2^32 (three x (2^31-1); 2^31-1 + 2^31-1 + 100; 3 + 2^31-1 + 2^31-1 + 1) must be refused with the destination absent afterwards, or - when it pre-existed with sentinel content - byte-identical; sets well inside the limits are accepted with exact size fields (thorough: a member of exactly 2^31-1 bytes is really packed). CLM: track sets whose data offset + length crosses 2^32 (four shapes) are refused; base names of 8 characters are accepted with the exact name field, 9 and 16 characters refused. Size prefixes: containers of max-1, max, max+1, max+2 elements for u8, i8, u16, i16 prefixes (vector and string): refusal iff too large, nothing written on refusal, exact field value otherwise. Map container sizes 2^32-2, 2^32-1 accepted, 2^32, 2^32+1, 2^33-1, 2^64-1 refused. ArtFile::Write with every layer-list length 0..130 x every 7-bit count 0..127 x optional flag (33536 frames): accepted iff the list length equals the count, and then re-read with that many layers.',
+    level_text='VOL: member sizes 2^31, 2^32-1, 2^32, 2^32+5 and a 2^31+1 member between small ones (sparse files), and member sets whose accumulated block offset crosses 2^32 (three x (2^31-1); 2^31-1 + 2^31-1 + 100; 3 + 2^31-1 + 2^31-1 + 1) must be refused with the destination absent afterwards, or - when it pre-existed with sentinel content - byte-identical; sets well inside the limits are accepted with exact size fields (thorough: a member of exactly 2^31-1 bytes is really packed). CLM: track sets whose data offset + length crosses 2^32 (four shapes) are refused; base names of 1, 7 and 8 characters are accepted with the exact name field, 9, 10, 12, 13 and 16 characters refused, each with seven extension spellings (.wav, .WAV, none, .w, .wv, .wave, a bare dot). Size prefixes: containers of max-1, max, max+1, max+2 elements for u8, i8, u16, i16 prefixes (vector and string): refusal iff too large, nothing written on refusal, exact field value otherwise. Map container sizes 2^32-2, 2^32-1 accepted, 2^32, 2^32+1, 2^33-1, 2^64-1 refused. ArtFile::Write with every layer-list length 0..130 x every 7-bit count 0..127 x optional flag (33536 frames): accepted iff the list length equals the count, and then re-read with that many layers; list lengths equal to the count modulo 128, 256, 384, 512, 1024, 65536 are refused as well.',
     level_note='Trusts tmpfs sparse files, g++/ASan/UBSan. 2^32-element containers cannot be built: the map guard function is called directly (private, via -fno-access-control). CLM refusals may happen after the destination was created (the property requires refusal-before-creation only for volumes).',
     rule='state = one limit probe; transitions = writer calls judged',
     bounds={'quick': '9 VOL size sets, 4 CLM offset sets, 10 names, 32 prefix probes, 8 map sizes, 33536 frames', 'thorough': 'adds the 2 GiB accept case'},
-    must_hit={'any': ['vol/beyond-the-limit', 'vol/at-the-limit-accepted', 'clm/offset-beyond-32-bits', 'clm/name-of-8', 'clm/name-of-9-or-more', 'prefix/beyond-the-limit', 'prefix/at-the-limit', 'map/beyond-the-limit', 'map/at-the-limit', 'frames/mismatch', 'frames/match']},
+    must_hit={'any': ['vol/beyond-the-limit', 'vol/at-the-limit-accepted', 'clm/offset-beyond-32-bits', 'clm/name-of-8', 'clm/name-of-9-or-more', 'prefix/beyond-the-limit', 'prefix/at-the-limit', 'map/beyond-the-limit', 'map/at-the-limit', 'frames/mismatch', 'frames/mismatch-modulo-field-width', 'frames/match']},
     assumptions=['the VOL block length field has 31 bits, so the largest member is 2^31-1 bytes'],
 )
 
